@@ -215,7 +215,7 @@ pub fn scenarios(tier: Tier) -> Vec<Scenario> {
             for post in 0..=2 {
                 for manual in [false, true] {
                     for d in [false, true] {
-                        add(vec![c(pre, post, 0, manual, d)], 3);
+                        add(vec![c(pre, post, 0, manual, d)], if pre + post <= 1 { 4 } else { 3 });
                     }
                 }
             }
